@@ -1,10 +1,11 @@
-From SV Require Import Alloc.LifeProps SaveLoad.Marker SaveLoad.SerDe SaveLoad.SLOps   SaveLoad.MarkerProps SaveLoad.SerDeProps SaveLoad.SLProps Props.C15.
-Check (C15_history_invariant :
-  forall nc os w, Inv w -> run_ok nc w os -> Inv (sl_run nc w os)).
-Check (C15_invariant_empty :
-  Inv sl_empty).
-Check (C15_invariant_meaning :
-  forall w, Inv w <->
+From SV Require Import Alloc.LifeProps SaveLoad.Marker SaveLoad.SerDe SaveLoad.SLOps
+  SaveLoad.MarkerProps SaveLoad.SerDeProps SaveLoad.SLProps.
+From SV Require Import Props.C15.
+Check (C15_history_invariant : forall nc os w, Inv w -> run_ok nc w os -> Inv (sl_run nc w os)).
+Check (C15_batch_deletion_in_statement_order : forall es w, sl_delete_many_stmt w es = sl_delete_many w es).
+Check (C15_batch_deletion_keeps_invariant : forall es w, Inv w -> Inv (fst (sl_delete_many w es))).
+Check (C15_invariant_empty : Inv sl_empty).
+Check (C15_invariant_meaning : forall w, Inv w <->
   (LInv (sl_life w) /\ NoDup (sl_free w) /\ (forall i, In i (sl_free w) <-> is_free (cell (sl_life w) i) = true)) /\
   (forall i m, NM.find i (sl_markers w) = Some m -> occupied (cell (sl_life w) i) = true) /\
   (forall k i c, cfind w k i = Some c -> occupied (cell (sl_life w) i) = true) /\
@@ -13,59 +14,38 @@ Check (C15_invariant_meaning :
   (forall i m, NM.find i (sl_markers w) = Some m -> m < sl_index w) /\
   (forall m e, NM.find m (sl_mapping w) = Some e -> m < sl_index w) /\
   (forall m e, NM.find m (sl_mapping w) = Some e -> (snd e <= top (cell (sl_life w) (fst e)))%Z)).
-Check (C15_ids_unique :
-  forall nc w, reachable nc w ->
+Check (C15_ids_unique : forall nc w, reachable nc w ->
   forall e1 e2 m, mk_get w e1 = Some m -> mk_get w e2 = Some m -> e1 = e2).
-Check (C15_mapping_agrees :
-  forall nc w, reachable nc w ->
+Check (C15_mapping_agrees : forall nc w, reachable nc w ->
   forall e m, mk_get w e = Some m -> NM.find m (sl_mapping w) = Some e).
-Check (C15_counter_above :
-  forall nc w, reachable nc w ->
+Check (C15_counter_above : forall nc w, reachable nc w ->
   (forall e m, mk_get w e = Some m -> m < sl_index w) /\
   (forall m e, NM.find m (sl_mapping w) = Some e -> m < sl_index w)).
-Check (C15_mark_existing :
-  forall w e m, mk_get w e = Some m -> ma_mark w e = (w, Some (m, false))).
-Check (C15_mark_fresh :
-  forall nc w e, reachable nc w -> w_alive w e = true -> mk_get w e = None ->
+Check (C15_mark_existing : forall w e m, mk_get w e = Some m -> ma_mark w e = (w, Some (m, false))).
+Check (C15_mark_fresh : forall nc w e, reachable nc w -> w_alive w e = true -> mk_get w e = None ->
   snd (ma_mark w e) = Some (sl_index w, true) /\ id_fresh w (sl_index w)).
-Check (C15_load_merges :
-  forall w d, Inv w ->
+Check (C15_load_merges : forall w d, Inv w ->
   let w' := deserialize w d in
   Inv w' /\
   (forall e, w_alive w e = true -> w_alive w' e = true /\ mk_get w' e = mk_get w e) /\
   (forall e, w_alive w' e = true -> w_alive w e = false ->
      exists m, mk_get w' e = Some m /\ id_fresh w m /\ In m (data_ids d)) /\
   (forall id, In id (data_ids d) -> exists e, mk_get w' e = Some id)).
-Check (C15_load_components :
-  forall w d d1 r d2, Inv w -> d = d1 ++ r :: d2 -> ~ In (fst r) (map fst d2) ->
+Check (C15_load_components : forall w d d1 r d2, Inv w -> d = d1 ++ r :: d2 -> ~ In (fst r) (map fst d2) ->
   let w' := deserialize w d in
   forall e, mk_get w' e = Some (fst r) ->
   forall j, (j < length (snd r))%nat -> slot_rel w' (nth j (snd r) None) (st_get w' (N.of_nat j) e)).
-Check (C15_load_removes_absent :
-  forall w d d1 r d2, Inv w -> d = d1 ++ r :: d2 -> ~ In (fst r) (map fst d2) ->
+Check (C15_load_removes_absent : forall w d d1 r d2, Inv w -> d = d1 ++ r :: d2 -> ~ In (fst r) (map fst d2) ->
   forall e, mk_get (deserialize w d) e = Some (fst r) ->
   forall j, (j < length (snd r))%nat -> nth j (snd r) None = None -> st_get (deserialize w d) (N.of_nat j) e = None).
-Check (C15_load_untouched :
-  forall w d, Inv w ->
+Check (C15_load_untouched : forall w d, Inv w ->
   forall e, (forall m, mk_get (deserialize w d) e = Some m -> ~ In m (map fst d)) ->
   forall k, st_get (deserialize w d) k e = st_get w k e).
-Check (C15_repeated_load :
-  forall w d, Inv w ->
+Check (C15_repeated_load : forall w d, Inv w ->
   let w1 := deserialize w d in let w2 := deserialize w1 d in
   forall e, w_alive w2 e = w_alive w1 e).
-Check (C15_stale_not_trusted :
-  forall w id e, Inv w -> NM.find id (sl_mapping w) = Some e -> w_alive w e = false ->
+Check (C15_stale_not_trusted : forall w id e, Inv w -> NM.find id (sl_mapping w) = Some e -> w_alive w e = false ->
   let t := snd (ma_retrieve w id) in
   t <> e /\ w_alive w t = false /\ mk_get (fst (ma_retrieve w id)) t = Some id).
-Check (C15_alloc_maintain_exact :
-  forall w m e, Inv w ->
+Check (C15_alloc_maintain_exact : forall w m e, Inv w ->
   (NM.find m (sl_mapping (ma_maintain w)) = Some e <-> mk_get w e = Some m)).
-Check (C15_nonfresh_id_refuted :
-  let w := sl_run 3 sl_empty [SCreate false; SCreate false; SMark (0, 1%Z); SMarkId (1, 1%Z) 0] in
-  mk_get w (0, 1%Z) = Some 0 /\ mk_get w (1, 1%Z) = Some 0).
-Check (C15_u64_wrap_refuted :
-  let w0 := sl_run 3 sl_empty [SCreate false; SCreate false; SCreate false] in
-  let w1 := ma_mark_wrap w0 (0, 1%Z) None in
-  let w2 := ma_mark_wrap w1 (1, 1%Z) (Some (U64 - 1)) in
-  let w3 := ma_mark_wrap w2 (2, 1%Z) None in
-  mk_get w3 (0, 1%Z) = Some 0 /\ mk_get w3 (2, 1%Z) = Some 0 /\ sl_index w2 = 0 /\ sl_index w3 = 1).
